@@ -112,6 +112,9 @@ def main(argv):
                 p.pointprops = []
                 for n in p.nodes:
                     n["bc"] = -1
+                if p.circprops and any(l_["circ"] >= 0 for l_ in p.labels) and rng.random() < 0.5:
+                    for m in p.blockprops:
+                        m["J_re"] = 0.0         # driven by circuit currents only: W = 1/2 sum I * flux linkage is checked too
                 if not any(m["J_re"] for m in p.blockprops) and not p.circprops:
                     p.blockprops[0]["J_re"] = 1.0
                 # the number of turns is a property of series-connected regions; in a parallel circuit every region is one turn (mixing
@@ -343,6 +346,27 @@ def main(argv):
                 W_all = sum(v.real if isinstance(v, complex) else v for v in per["energy"] if v is not None)
                 AJ = sum(v.real if isinstance(v, complex) else v for v in per["AJ"] if v is not None)
                 Wc = sum(v.real if isinstance(v, complex) else v for v in per["coenergy"] if v is not None)
+                # the same energy through the terminals: W = 1/2 sum over circuits of current x flux linkage, when only circuits excite
+                if W_all > 0 and p.circprops and not any(m.get("J_re") for m in p.blockprops):
+                    half = 0.0
+                    okq = True
+                    for ci_, c in enumerate(p.circprops):
+                        if not any(l_["circ"] == ci_ for l_ in p.labels):
+                            continue        # a circuit no region belongs to has no flux linkage
+                        tq = out.get("T_" + c["name"])
+                        if not tq or len(tq) < 3 or tq[0] is None or tq[2] is None:
+                            okq = False
+                            break
+                        half += 0.5 * (tq[0].real if isinstance(tq[0], complex) else tq[0]) * (tq[2].real if isinstance(tq[2], complex) else tq[2])
+                    if not okq:
+                        ck.violation("terminal-missing:m", "mo_getcircuitproperties returned no numbers: %r" % {c["name"]: out.get("T_" + c["name"]) for c in p.circprops}, dict(files=run.files()))
+                    else:
+                        errT = abs(W_all - half) / W_all
+                        stats["worst_energy_vs_linkage_error"] = max(stats.get("worst_energy_vs_linkage_error", 0.0), errT)
+                        stats["energy_vs_linkage_checked"] = stats.get("energy_vs_linkage_checked", 0) + 1
+                        if not (errT <= 1e-6):
+                            ck.violation("energy-vs-AJ:m:axi:mesh-level" if (axi and errT < 0.1) else "energy-vs-linkage:m:%s" % ("axi" if axi else "planar"),
+                                         "stored energy %.9g J, half the sum of circuit current x flux linkage %.9g J (%s)" % (W_all, half, p.ptype), dict(files=run.files()))
                 if W_all > 0:
                     err = max(abs(W_all - 0.5 * AJ), abs(W_all - Wc)) / W_all
                     stats["worst_energy_identity_error"] = max(stats["worst_energy_identity_error"], err)
